@@ -19,13 +19,13 @@ func NextOne(bm []uint64, i, end int32) int32 {
 		nxt = wordIdx<<6 + int32(bits.TrailingZeros64(word))
 	} else {
 
-		i = (i + 63) & ^63
+		// in 64 bit: i+63 exceeds int32 for i in the last word of a bitmap of
+		// 2^25 words.
+		for j := (int64(i) + 63) & ^63; j < int64(end); j += 64 {
 
-		for ; i < end; i += 64 {
-
-			word := bm[i>>6]
+			word := bm[j>>6]
 			if word != 0 {
-				nxt = i + int32(bits.TrailingZeros64(word))
+				nxt = int32(j) + int32(bits.TrailingZeros64(word))
 				break
 			}
 		}
